@@ -27,6 +27,11 @@ def storage_fields(F):
         for f in (F.recs.get(rec) or {}).get("fields", []):
             if "std::vector<" in f["ct"]:
                 out[(rec, f["name"])] = True
+            elif f["name"].startswith("has") and (f.get("ct") or f.get("t") or "").replace("const ", "") == "bool":
+                out[(rec, f["name"])] = True  # presence flag of a per-vertex array: the getter hands nothing out while it is off
+    # the packed format keeps all presence flags in the vertex descriptor
+    for f in (F.recs.get("nifly::VertexDesc") or {}).get("fields", []):
+        out[("nifly::VertexDesc", f["name"])] = True
     return out
 
 
